@@ -134,22 +134,146 @@ def known_funcs():
     return _KNOWN
 
 
-UFUNC_CMP = {'numpy.greater': 'Gt', 'numpy.less': 'Lt', 'numpy.greater_equal': 'GtE', 'numpy.less_equal': 'LtE', 'numpy.equal': 'Eq'}
+UFUNC_CMP = {'numpy.greater': 'Gt', 'numpy.less': 'Lt', 'numpy.greater_equal': 'GtE', 'numpy.less_equal': 'LtE', 'numpy.equal': 'Eq',
+             'operator.gt': 'Gt', 'operator.lt': 'Lt', 'operator.ge': 'GtE', 'operator.le': 'LtE', 'operator.eq': 'Eq'}
+OPERATOR_BINOP = {'operator.mul': 'Mult', 'operator.add': 'Add', 'operator.sub': 'Sub', 'operator.truediv': 'Div', 'operator.pow': 'Pow', 'operator.matmul': 'MatMult'}
 
 
 def depth_ok(f, depth=0):
     """a callee chosen by a (shallow) conditional: gamma tree whose leaves are references"""
-    if depth > 3:
+    if depth > 12:
         return False
     if f.op == 'gamma':
         return depth_ok(f.args[1], depth + 1) and depth_ok(f.args[2], depth + 1)
-    return f.op in ('ref', 'attr', 'closure')
+    return f.op in ('ref', 'attr', 'closure') or (depth > 0 and ((f.op == 'unknown' and f.args == ('keyerror',)) or (f.op == 'const' and f.args[0] is None)))
 
 
 FALL = T('fall')
 RAISE = T('raise')
 UNDEF = T('undef')
 NONDET = 'nondet'
+
+
+
+RANK_PRESERVING = ('numpy.transpose', 'numpy.swapaxes', 'numpy.moveaxis', 'numpy.rollaxis', 'numpy.conj', 'numpy.conjugate', 'numpy.copy', 'numpy.asarray', 'numpy.ascontiguousarray',
+                   'numpy.abs', 'numpy.absolute', 'numpy.real', 'numpy.imag', 'numpy.exp', 'numpy.log', 'numpy.sqrt', 'numpy.negative', 'numpy.flip', 'numpy.sort', 'numpy.nan_to_num')
+RANK_PRESERVING_METHODS = ('transpose', 'swapaxes', 'conj', 'conjugate', 'copy', 'astype')
+
+
+def _rank_root(t, depth=0):
+    """the value whose number of axes t has by construction (transposes, element-wise functions and copies do not change it)"""
+    while isinstance(t, T) and depth < 40:
+        depth += 1
+        if t.op == 'refine':
+            t = t.args[0]
+        elif t.op == 'attr' and t.args[1] in ('T', 'real', 'imag'):
+            t = t.args[0]
+        elif t.op == 'call' and t.args[0].op == 'ref' and isinstance(t.args[0].args[0], Lib) and t.args[0].args[0].dotted in RANK_PRESERVING and t.args[1] \
+                and not any(k == 'ndmin' for k, _ in t.args[2]):
+            t = t.args[1][0]
+        elif t.op == 'call' and t.args[0].op == 'attr' and t.args[0].args[1] in RANK_PRESERVING_METHODS and t.args[0].args[0].op != 'ref':
+            t = t.args[0].args[0]
+        elif t.op == 'gamma':
+            a, b = _rank_root(t.args[1], depth), _rank_root(t.args[2], depth)
+            if a is b:
+                t = a
+            else:
+                break
+        else:
+            break
+    return t
+
+
+def _stores(node, name):
+    return any(isinstance(x, ast.Name) and x.id == name and isinstance(x.ctx, (ast.Store, ast.Del)) for x in ast.walk(node))
+
+
+def _loads(node, name):
+    return any(isinstance(x, ast.Name) and x.id == name and isinstance(x.ctx, ast.Load) for x in ast.walk(node))
+
+
+def _own_continue(body):
+    """a `continue` that belongs to this loop (not to a nested one)"""
+    def rec(node):
+        if isinstance(node, ast.Continue):
+            return True
+        if isinstance(node, (ast.For, ast.While, ast.FunctionDef, ast.Lambda, ast.ClassDef)):
+            return False
+        return any(rec(c) for c in ast.iter_child_nodes(node))
+    return any(rec(st) for st in body)
+
+
+def _counting_loops_as_for(stmts):
+    """`i = a; while i < n: BODY; i += 1`  ->  `for i in range(a, n): BODY`   (and the count-down form with `i -= 1`, `i >= b` / `i > b`;
+    the increment may stand anywhere at the top level of the body when `i` is read only before or only after it)
+    when `i` is not otherwise assigned in BODY, BODY has no `continue` of its own, the bound is not assigned in BODY and `i` is not read
+    after the loop.  The loop forms are one canonical construct for every rule about loops (running index, extent, iteration order)."""
+    out = list(stmts)
+    changed = False
+    for k, st in enumerate(out):
+        if not (isinstance(st, ast.While) and not st.orelse and isinstance(st.test, ast.Compare) and len(st.test.ops) == 1 and st.body):
+            continue
+        left, op, right = st.test.left, st.test.ops[0], st.test.comparators[0]
+        if isinstance(left, ast.Name) and isinstance(op, (ast.Lt, ast.GtE, ast.Gt)):
+            var, bound, opn = left.id, right, type(op).__name__
+        elif isinstance(right, ast.Name) and isinstance(op, (ast.Gt, ast.LtE, ast.Lt)):
+            var, bound, opn = right.id, left, {'Gt': 'Lt', 'LtE': 'GtE', 'Lt': 'Gt'}[type(op).__name__]
+        else:
+            continue
+
+        def is_step(b):
+            if isinstance(b, ast.AugAssign) and isinstance(b.target, ast.Name) and b.target.id == var and isinstance(b.value, ast.Constant) and b.value.value == 1 \
+                    and isinstance(b.op, (ast.Add, ast.Sub)):
+                return 1 if isinstance(b.op, ast.Add) else -1
+            if isinstance(b, ast.Assign) and len(b.targets) == 1 and isinstance(b.targets[0], ast.Name) and b.targets[0].id == var and isinstance(b.value, ast.BinOp) \
+                    and isinstance(b.value.left, ast.Name) and b.value.left.id == var and isinstance(b.value.right, ast.Constant) and b.value.right.value == 1 \
+                    and isinstance(b.value.op, (ast.Add, ast.Sub)):
+                return 1 if isinstance(b.value.op, ast.Add) else -1
+            return None
+        steps = [(j, is_step(b)) for j, b in enumerate(st.body) if is_step(b) is not None]
+        if len(steps) != 1:
+            continue
+        at, step = steps[0]
+        if (step == 1) != (opn == 'Lt'):
+            continue
+        pre, post = st.body[:at], st.body[at + 1:]
+        reads_pre, reads_post = any(_loads(b, var) for b in pre), any(_loads(b, var) for b in post)
+        if reads_pre and reads_post:
+            continue
+        shift = step if reads_post else 0          # statements after the increment see the next value
+        body = pre + post
+        if not body or any(_stores(b, var) for b in body) or _own_continue(body):
+            continue
+        if any(isinstance(n, ast.Name) and any(_stores(b, n.id) for b in body) for n in ast.walk(bound)):
+            continue
+        if any(_loads(later, var) for later in out[k + 1:]):
+            continue
+        init = None
+        for prev in reversed(out[:k]):
+            if _stores(prev, var):
+                if isinstance(prev, ast.Assign) and len(prev.targets) == 1 and isinstance(prev.targets[0], ast.Name) and prev.targets[0].id == var:
+                    init = prev.value
+                break
+        if init is None:
+            continue
+        loc = dict(lineno=st.lineno, col_offset=st.col_offset, end_lineno=getattr(st, 'end_lineno', st.lineno), end_col_offset=getattr(st, 'end_col_offset', 0))
+
+        def plus(x, d):
+            if d == 0:
+                return x
+            if isinstance(x, ast.Constant) and isinstance(x.value, int) and not isinstance(x.value, bool):
+                return ast.Constant(x.value + d, **loc)
+            return ast.BinOp(left=x, op=ast.Add() if d > 0 else ast.Sub(), right=ast.Constant(abs(d), **loc), **loc)
+        if step == 1:
+            lo, hi = plus(init, shift), plus(bound, shift)
+            args = [hi] if (isinstance(lo, ast.Constant) and lo.value == 0 and not isinstance(lo.value, bool)) else [lo, hi]
+        else:
+            stop = plus(bound, -1) if opn == 'GtE' else bound
+            args = [plus(init, shift), plus(stop, shift), ast.Constant(-1, **loc)]
+        rng = ast.Call(func=ast.Name(id='range', ctx=ast.Load(), **loc), args=args, keywords=[], **loc)
+        out[k] = ast.For(target=ast.Name(id=var, ctx=ast.Store(), **loc), iter=rng, body=body, orelse=[], type_comment=None, **loc)
+        changed = True
+    return out if changed else stmts
 
 
 class FuncGraph:
@@ -198,6 +322,7 @@ class FuncGraph:
     # ------------------------------------------------------------------ blocks
     def block(self, stmts, env):
         """returns (env_out | None if every path terminated, ret gamma-tree with FALL leaves)"""
+        stmts = _counting_loops_as_for(stmts)
         for i, s in enumerate(stmts):
             r = self.stmt(s, env)
             if r is None:
@@ -909,6 +1034,27 @@ class FuncGraph:
                     self.bind(name, new, env, e)
                 return new
             return None
+        if lib == 'numpy.expand_dims' and plain and len(args) + len(kws) == 2:
+            # np.expand_dims(reduce(x, axis=a), a) is reduce(x, axis=a, keepdims=True)
+            x = args[0] if args else dict(kws).get('a')
+            ax = args[1] if len(args) > 1 else dict(kws).get('axis')
+            if x is not None and ax is not None and x.op == 'call' and not any(a.op == 'star' for a in x.args[1]) and all(k is not None for k, _ in x.args[2]):
+                xf = x.args[0]
+                pos_axis = None
+                if xf.op == 'ref' and isinstance(xf.args[0], Lib) and xf.args[0].dotted in self.KEEPDIMS_REDUCERS_ARG:
+                    pos_axis = self.KEEPDIMS_REDUCERS_ARG[xf.args[0].dotted]
+                elif xf.op == 'attr' and xf.args[1] in self.KEEPDIMS_METHODS_ARG and xf.args[0].op != 'ref':
+                    pos_axis = 0
+                xk = dict(x.args[2])
+                if pos_axis is not None and 'keepdims' not in xk and 'out' not in xk:
+                    xa = xk.get('axis', x.args[1][pos_axis] if len(x.args[1]) > pos_axis else None)
+                    same = xa is not None and (xa is ax or (xa.op == 'const' and ax.op == 'const' and xa.args[0] == ax.args[0] and isinstance(xa.args[0], int)))
+                    if same:
+                        new = self.mk('call', (xf, x.args[1], x.args[2] + (('keepdims', const(True, e, self.fn)),)), x.node)
+                        for ev in self.events:
+                            if ev.term is x:
+                                ev.term = new
+                        return new
         if lib == 'numpy.expand_dims' and plain:
             x = args[0] if args else dict(kws).get('a')
             ax = args[1] if len(args) > 1 else dict(kws).get('axis')
@@ -925,6 +1071,91 @@ class FuncGraph:
                 return self.mk('sub', (x, idx), e)
         if lib in UFUNC_CMP and plain and len(args) == 2 and not kws:
             return self.mk('cmp', (UFUNC_CMP[lib], args[0], args[1]), e)          # np.greater(a, b) is a > b
+        if lib in ('numpy.not_equal', 'operator.ne') and plain and len(args) == 2 and not kws:
+            return self.mk('unop', ('Not', self.mk('cmp', ('Eq', args[0], args[1]), e)), e)
+        if lib in OPERATOR_BINOP and plain and len(args) == 2 and not kws:
+            return self.mk('binop', (OPERATOR_BINOP[lib], args[0], args[1]), e)
+        if lib == 'numpy.take' and plain and not any(k in ('out', 'mode') for k, _ in kws):
+            # np.take(x, i, axis=k) is x[:, ..., i] (k >= 0) / x[..., i, :, ...] (k < 0); without an axis it flattens (left alone)
+            kwd = dict(kws)
+            x = args[0] if args else kwd.get('a')
+            ind = args[1] if len(args) > 1 else kwd.get('indices')
+            ax = args[2] if len(args) > 2 else kwd.get('axis')
+            if x is not None and ind is not None and ax is not None and ax.op == 'const' and isinstance(ax.args[0], int) and not isinstance(ax.args[0], bool):
+                k = ax.args[0]
+                full = lambda: self.mk('slice', (const(None, e, self.fn), const(None, e, self.fn), const(None, e, self.fn)), e)
+                if k == 0:
+                    return self.mk('sub', (x, ind), e)
+                items = ([full() for _ in range(k)] + [ind]) if k > 0 else ([const(Ellipsis, e, self.fn), ind] + [full() for _ in range(-k - 1)])
+                return self.mk('sub', (x, self.mk('tuple', (tuple(items),), e)), e)
+        if lib in ('numpy.full', 'numpy.full_like') and plain:
+            # np.full(shape, 1.0) is np.ones(shape); np.full(shape, 0) is np.zeros(shape, dtype=int) ...
+            kwd = dict(kws)
+            first = args[0] if args else kwd.get('shape', kwd.get('a'))
+            val = args[1] if len(args) > 1 else kwd.get('fill_value')
+            dt = args[2] if len(args) > 2 else kwd.get('dtype')
+            extra = set(kwd) - {'shape', 'a', 'fill_value', 'dtype'}
+            if first is not None and val is not None and not extra and val.op == 'const' and not isinstance(val.args[0], bool) and val.args[0] in (0, 1) \
+                    and isinstance(val.args[0], (int, float)):
+                name = ('ones' if val.args[0] == 1 else 'zeros') + ('_like' if lib.endswith('_like') else '')
+                if dt is None and isinstance(val.args[0], int) and not lib.endswith('_like'):
+                    dt = self.mk('ref', (('builtin', 'int'),), e)
+                t = self.mk('call', (self.mk('ref', (Lib('numpy.' + name),), e), (first,), (('dtype', dt),) if dt is not None else ()), e)
+                self.event('call', t, e)
+                return t
+        if f.op == 'attr' and f.args[1] == 'fill' and plain and len(args) == 1 and not kws and isinstance(e.func, ast.Attribute) and isinstance(e.func.value, ast.Name) \
+                and e.func.value.id in env and env[e.func.value.id] is f.args[0]:
+            # x = np.empty(shape[, dtype]); x.fill(v)   is   x = np.full(shape, v[, dtype])
+            r = f.args[0]
+            if r.op == 'call' and r.args[0].op == 'ref' and isinstance(r.args[0].args[0], Lib) and r.args[0].args[0].dotted in ('numpy.empty', 'numpy.zeros', 'numpy.ones') \
+                    and not any(a.op == 'star' for a in r.args[1]) and all(k is not None for k, _ in r.args[2]):
+                rk = dict(r.args[2])
+                shp = r.args[1][0] if r.args[1] else rk.get('shape')
+                dt = r.args[1][1] if len(r.args[1]) > 1 else rk.get('dtype')
+                if shp is not None and not (set(rk) - {'shape', 'dtype'}):
+                    kw2 = [('dtype', dt)] if dt is not None else []
+                    t = self.canonical_call(self.mk('ref', (Lib('numpy.full'),), e), [shp, args[0]], kw2, e, env)
+                    if t is None:
+                        t = self.mk('call', (self.mk('ref', (Lib('numpy.full'),), e), (shp, args[0]), tuple(kw2)), e)
+                        self.event('call', t, e)
+                    self.bind(e.func.value.id, t, env, e)
+                    return const(None, e, self.fn)
+        if plain and not kws and ((f.op == 'attr' and f.args[1] == 'reshape' and f.args[0].op == 'call') or (lib == 'numpy.reshape' and len(args) == 2 and args[0].op == 'call')):
+            # np.arange(n).reshape(-1, 1) is np.arange(n)[:, None]; .reshape(1, -1) is [None, :]   (arange is one-dimensional by construction)
+            recv = f.args[0] if f.op == 'attr' else args[0]
+            shp = list(args) if f.op == 'attr' else [args[1]]
+            if len(shp) == 1 and shp[0].op in ('tuple', 'list'):
+                shp = list(shp[0].args[0])
+            vals = [x.args[0] if x.op == 'const' else None for x in shp]
+            if recv.args[0].op == 'ref' and isinstance(recv.args[0].args[0], Lib) and recv.args[0].args[0].dotted == 'numpy.arange' and vals in ([-1, 1], [1, -1]):
+                full = self.mk('slice', (const(None, e, self.fn), const(None, e, self.fn), const(None, e, self.fn)), e)
+                none = const(None, e, self.fn)
+                items = (full, none) if vals == [-1, 1] else (none, full)
+                return self.mk('sub', (recv, self.mk('tuple', (items,), e)), e)
+        if f.op == 'attr' and f.args[1] == 'get' and f.args[0].op == 'dict' and plain and 1 <= len(args) <= 2 and not kws:
+            dd = self._dict_dispatch(f.args[0], args[0], args[1] if len(args) > 1 else const(None, e, self.fn), e)
+            if dd is not None:
+                return dd
+        if plain and len(args) == 1 and not kws:
+            # one-argument spellings of an operator / an attribute
+            if lib == 'numpy.square':
+                return self.mk('binop', ('Pow', args[0], const(2, e, self.fn)), e)
+            if lib == 'numpy.reciprocal':
+                return self.mk('binop', ('Div', const(1, e, self.fn), args[0]), e)
+            if lib == 'numpy.negative':
+                return self.mk('unop', ('USub', args[0]), e)
+            if lib in ('numpy.shape', 'numpy.ndim'):
+                return self.mk('attr', (args[0], lib.split('.')[1]), e)
+            if f.op == 'ref' and f.args[0] == ('builtin', 'bool') and (args[0].op in ('cmp', 'bool') or (args[0].op == 'unop' and args[0].args[0] == 'Not')):
+                return args[0]          # bool(a >= b) is the test itself
+            if f.op == 'ref' and f.args[0] == ('builtin', 'len') and args[0].op == 'attr' and args[0].args[1] == 'shape':
+                return self.mk('attr', (args[0].args[0], 'ndim'), e)          # len(x.shape) is x.ndim
+        if plain and len(args) == 2 and not kws and f.op == 'ref' and f.args[0] == ('builtin', 'getattr') and args[1].op == 'const' and isinstance(args[1].args[0], str) \
+                and args[1].args[0].isidentifier():
+            return self.load_attr(ast.Attribute(value=e.args[0], attr=args[1].args[0], ctx=ast.Load(), lineno=getattr(e, 'lineno', 0), col_offset=getattr(e, 'col_offset', 0),
+                                                end_lineno=getattr(e, 'end_lineno', 0), end_col_offset=getattr(e, 'end_col_offset', 0)), args[0], env)
+        if f.op == 'refine' and isinstance(f.args[0], T) and f.args[0].op == 'gamma' and depth_ok(f.args[0]):
+            f = f.args[0]          # a callee selected by a conditional, then tested against None
         if f.op == 'gamma' and depth_ok(f):
             # compare = np.greater if c else np.less; compare(a, b)  ->  (a > b) if c else (a < b)
             outs = []
@@ -1003,7 +1234,10 @@ class FuncGraph:
             m = self.prog.find_method(self.fn.cls, f.args[1]) if hasattr(self.prog, 'find_method') else self.fn.cls.methods.get(f.args[1])
             if isinstance(m, Func) and not m.is_classmethod and not m.is_property:
                 callee, pre = m, ([] if m.is_static else [f.args[0]])
-        if callee is None or callee.qual in known_funcs() or callee.name == '<lambda>':
+        is_lambda = callee is not None and callee.name == '<lambda>'
+        if callee is None or (callee.qual in known_funcs() and not is_lambda):
+            return None
+        if is_lambda and f.op != 'closure':
             return None
         if callee in self._inline_stack or len(self._inline_stack) >= 3 or callee.vararg or callee.kwarg:
             return None
@@ -1038,7 +1272,10 @@ class FuncGraph:
             self._inline_exits.append([])
             self.inlined.append((callee, e))
             try:
-                env_out, ret = self.block(callee.node.body, env2)
+                body = callee.node.body
+                if isinstance(callee.node, ast.Lambda):
+                    body = [ast.Return(value=callee.node.body, lineno=getattr(callee.node, 'lineno', 0), col_offset=0)]
+                env_out, ret = self.block(body, env2)
             finally:
                 self._inline_stack.pop()
                 exits = self._inline_exits.pop()
@@ -1080,7 +1317,76 @@ class FuncGraph:
         return False
 
     def ex_BinOp(self, e, env):
-        return self.mk('binop', (type(e.op).__name__, self.expr(e.left, env), self.expr(e.right, env)), e)
+        a, b = self.expr(e.left, env), self.expr(e.right, env)
+        if isinstance(e.op, ast.Pow) and b.op == 'const' and b.args[0] == 0.5 and not isinstance(b.args[0], bool):
+            return self._libcall('numpy.sqrt', (a,), e)          # x ** 0.5 is np.sqrt(x)
+        if isinstance(e.op, ast.Add):
+            # -b + a  and  a + (-b)  are  a - b
+            if a.op == 'unop' and a.args[0] == 'USub' and not (b.op == 'unop' and b.args[0] == 'USub'):
+                return self.mk('binop', ('Sub', b, a.args[1]), e)
+            if b.op == 'unop' and b.args[0] == 'USub' and not (a.op == 'unop' and a.args[0] == 'USub'):
+                return self.mk('binop', ('Sub', a, b.args[1]), e)
+        if isinstance(e.op, ast.Mult):
+            # a[..., :, None] * b[..., None, :]  is the outer product einsum('...d,...D->...dD', a, b)
+            ka, kb = self._outer_kind(a), self._outer_kind(b)
+            if ka is not None and kb is not None and {ka[0], kb[0]} == {'col', 'row'}:
+                col, row = (ka[1], kb[1]) if ka[0] == 'col' else (kb[1], ka[1])
+                return self._libcall('numpy.einsum', (const('...d,...D->...dD', e, self.fn), col, row), e)
+            # x * 0.5 / 0.5 * x is x / 2
+            for u, v in ((a, b), (b, a)):
+                if v.op == 'const' and isinstance(v.args[0], float) and v.args[0] == 0.5 and u.op != 'const':
+                    return self.mk('binop', ('Div', u, const(2, e, self.fn)), e)
+        return self.mk('binop', (type(e.op).__name__, a, b), e)
+
+    @staticmethod
+    def _index_kinds(idx):
+        items = idx.args[0] if idx.op == 'tuple' else (idx,)
+        out = ''
+        for x in items:
+            if x.op == 'const' and x.args[0] is Ellipsis:
+                out += 'E'
+            elif x.op == 'const' and x.args[0] is None:
+                out += 'N'
+            elif x.op == 'const' and x.args[0] == 0 and isinstance(x.args[0], int) and not isinstance(x.args[0], bool):
+                out += '0'
+            elif x.op == 'slice' and all(y.op == 'const' and y.args[0] is None for y in x.args):
+                out += ':'
+            else:
+                out += '?'
+        return out
+
+    def _matvec_form(self, base, idx, e):
+        """(M @ v[..., None])[..., 0]  (also with explicit full slices instead of `...`)  ->  einsum('...dD,...D->...d', M, v): the matrix-vector product"""
+        import re
+        if not (base.op == 'binop' and base.args[0] == 'MatMult'):
+            return None
+        if not re.fullmatch(r'(E|:+)0', self._index_kinds(idx)):
+            return None
+        m, v = base.args[1], base.args[2]
+        if v.op != 'sub' or not re.fullmatch(r'(E|:+)N', self._index_kinds(v.args[1])):
+            return None
+        return self._libcall('numpy.einsum', (const('...dD,...D->...d', e, self.fn), m, v.args[0]), e)
+
+    @staticmethod
+    def _outer_kind(t):
+        """x[..., :, None] / x[..., None] -> ('col', x);  x[..., None, :] -> ('row', x)"""
+        if t.op != 'sub' or t.args[1].op != 'tuple':
+            return None
+        items = t.args[1].args[0]
+        def kind(x):
+            if x.op == 'const' and x.args[0] is Ellipsis:
+                return 'E'
+            if x.op == 'const' and x.args[0] is None:
+                return 'N'
+            if x.op == 'slice' and all(y.op == 'const' and y.args[0] is None for y in x.args):
+                return ':'
+            return '?'
+        ks = ''.join(kind(x) for x in items)
+        if ks in ('E:N', 'EN'):
+            return 'col', t.args[0]
+        if ks == 'EN:':
+            return 'row', t.args[0]
+        return None
 
     def ex_UnaryOp(self, e, env):
         v = self.expr(e.operand, env)
@@ -1123,7 +1429,87 @@ class FuncGraph:
         return self.mk('gamma', (c, a, b), e)
 
     def ex_Subscript(self, e, env):
-        return self.mk('sub', (self.expr(e.value, env), self.index(e.slice, env)), e)
+        base, idx = self.expr(e.value, env), self.index(e.slice, env)
+        if base.op == 'attr' and base.args[1] == 'shape' and idx.op == 'binop' and idx.args[0] == 'Sub' and idx.args[1].op == 'attr' and idx.args[1].args[1] == 'ndim' \
+                and _rank_root(idx.args[1].args[0]) is _rank_root(base.args[0]) and idx.args[2].op == 'const' and isinstance(idx.args[2].args[0], int) and idx.args[2].args[0] >= 1:
+            idx = const(-idx.args[2].args[0], e, self.fn)          # x.shape[x.ndim - k] is x.shape[-k]
+        kd = self._keepdims_form(base, idx, e)
+        if kd is not None:
+            return kd
+        mv = self._matvec_form(base, idx, e)
+        if mv is not None:
+            return mv
+        dd = self._dict_dispatch(base, idx, None, e)
+        if dd is not None:
+            return dd
+        return self.mk('sub', (base, idx), e)
+
+    def _dict_dispatch(self, base, key, default, e):
+        """{k1: v1, k2: v2}[key]  ->  v1 if key == k1 else (v2 if key == k2 else <KeyError>): a literal dispatch table is the if / elif chain it abbreviates
+        (a callee or operand tuple selected this way is then distributed over the call like any other conditional selection)"""
+        if base.op != 'dict' or not base.args[0] or len(base.args[0]) > 12:
+            return None
+        keys, vals = base.args[0], base.args[1]
+        if not all(isinstance(k, T) and k.op == 'const' and isinstance(k.args[0], (str, int, bool, type(None))) for k in keys):
+            return None
+        kv = {k.args[0]: v for k, v in zip(keys, vals)}
+        if len(keys) == 2 and all(isinstance(k.args[0], bool) for k in keys) and set(kv) == {True, False} and key.op in ('cmp', 'bool', 'unop'):
+            return self.mk('gamma', (key, kv[True], kv[False]), e)          # {True: a, False: b}[test] is a if test else b
+        if key.op == 'const':
+            for k, v in zip(keys, vals):
+                if k.args[0] == key.args[0] and type(k.args[0]) is type(key.args[0]):
+                    return v
+            return default
+        out = default if default is not None else self.mk('unknown', ('keyerror',), e)
+        for k, v in reversed(list(zip(keys, vals))):
+            out = self.mk('gamma', (self.mk('cmp', ('Eq', key, k), e), v, out), e)
+        return out
+
+    KEEPDIMS_REDUCERS = {'numpy.sum': 1, 'numpy.mean': 1, 'numpy.amax': 1, 'numpy.max': 1, 'numpy.amin': 1, 'numpy.min': 1, 'numpy.prod': 1, 'numpy.linalg.norm': 2,
+                         'numpy.any': 1, 'numpy.all': 1, 'numpy.std': 1, 'numpy.var': 1}
+    ELEMENTWISE_UNARY = ('numpy.sqrt', 'numpy.abs', 'numpy.absolute', 'numpy.exp', 'numpy.log', 'numpy.real', 'numpy.conj', 'numpy.conjugate', 'numpy.log10')
+    KEEPDIMS_REDUCERS_ARG = dict(KEEPDIMS_REDUCERS, **{'numpy.argmax': 1, 'numpy.argmin': 1})
+    KEEPDIMS_METHODS_ARG = ('sum', 'mean', 'max', 'min', 'prod', 'any', 'all', 'std', 'var', 'argmax', 'argmin')
+    KEEPDIMS_METHODS = {'sum': 0, 'mean': 0, 'max': 0, 'min': 0, 'prod': 0, 'any': 0, 'all': 0, 'std': 0, 'var': 0}
+
+    def _keepdims_form(self, base, idx, e):
+        """reduce(x, axis=-k)[..., None, <k-1 full slices>]  ->  reduce(x, axis=-k, keepdims=True): the reduced axis is put back where it was"""
+        if base.op != 'call' or idx.op != 'tuple' or any(k is None for k, _ in base.args[2]) or any(a.op == 'star' for a in base.args[1]):
+            return None
+        items = idx.args[0]
+        if len(items) < 2 or not (items[0].op == 'const' and items[0].args[0] is Ellipsis) or not (items[1].op == 'const' and items[1].args[0] is None):
+            return None
+        if not all(x.op == 'slice' and all(y.op == 'const' and y.args[0] is None for y in x.args) for x in items[2:]):
+            return None
+        k = -(len(items) - 1)
+        f = base.args[0]
+        if f.op == 'ref' and isinstance(f.args[0], Lib) and f.args[0].dotted in self.ELEMENTWISE_UNARY and len(base.args[1]) == 1 and not base.args[2]:
+            # an elementwise function commutes with putting the axis back: sqrt(sum(x, -1))[..., None] is sqrt(sum(x, -1, keepdims=True))
+            inner = self._keepdims_form(base.args[1][0], idx, e)
+            if inner is None:
+                return None
+            new = self.mk('call', (f, (inner,), ()), base.node)
+            for ev in self.events:
+                if ev.term is base:
+                    ev.term = new
+            return new
+        if f.op == 'ref' and isinstance(f.args[0], Lib) and f.args[0].dotted in self.KEEPDIMS_REDUCERS:
+            pos_axis = self.KEEPDIMS_REDUCERS[f.args[0].dotted]
+        elif f.op == 'attr' and f.args[1] in self.KEEPDIMS_METHODS and not (f.args[0].op == 'ref'):
+            pos_axis = self.KEEPDIMS_METHODS[f.args[1]]
+        else:
+            return None
+        kwd = dict(base.args[2])
+        if 'keepdims' in kwd or 'out' in kwd:
+            return None
+        ax = kwd.get('axis', base.args[1][pos_axis] if len(base.args[1]) > pos_axis else None)
+        if ax is None or not (ax.op == 'const' and ax.args[0] == k) or isinstance(ax.args[0], bool):
+            return None
+        new = self.mk('call', (f, base.args[1], base.args[2] + (('keepdims', const(True, e, self.fn)),)), base.node)
+        for ev in self.events:
+            if ev.term is base:
+                ev.term = new
+        return new
 
     def ex_Slice(self, e, env):
         return self.mk('slice', (self.expr(e.lower, env), self.expr(e.upper, env), self.expr(e.step, env)), e)
